@@ -73,7 +73,8 @@ def configs(tier):
         for loops in (-1, 1, 2, 3):
             for cache in (True, 2, 3):
                 out.append((cfg_of(2, loops, cache, 100 if loops != 3 else "DYN", "E0", "small"), 0))
-        out.append((cfg_of(3, 2, True, 100, "E0", "small"), 0))             # the big one (~2.3M transitions)
+        # (n=3 with the 'small' alphabet and an enabled cache has ~100k states / 4M transitions in ONE configuration,
+        #  8+ minutes on one core: covered instead by the five one-dimensional projections below and by 'tiny')
         for loops in (-1, 1, 2, 3):
             for cache, prof in ((True, "tiny"), (3, "dur"), (4, "args"), (True, "size"), (3, "pad")):
                 out.append((cfg_of(3, loops, cache, 100, "E0", prof), 0))
